@@ -540,3 +540,34 @@ def split_first_for(body):
     ob = m.end() - 1
     cb = match_close(body, ob)
     return m.group(1), m.group(2), body[ob:cb + 1], '{' + body[cb + 1:-1] + '}'
+
+
+def rule_U2(text):
+    """unsafe { let ptr = V.as_mut_ptr(); let A = from_raw_parts_mut(ptr.add(E1), E2); let B = from_raw_parts(ptr.add(E3), E4); (A, B) }
+    -> verif_two_ranges(&mut V, E1, E2, E3, E4): a trusted primitive whose PRECONDITION is the safety condition of the two
+    slice::from_raw_parts* calls (both ranges inside the allocation, mutable range disjoint from the shared one)."""
+    m = re.search(r'unsafe \{', text)
+    if not m:
+        return text, 0
+    ob = m.end() - 1
+    cb = match_close(text, ob)
+    blk = text[ob + 1:cb]
+    mv = re.search(r'let (\w+) = ([\w\.]+)\.as_mut_ptr\(\);', blk)
+    m1 = re.search(r'let (\w+) = core::slice::from_raw_parts_mut\((\w+)\.add\(([^()]*(?:\([^()]*\))?[^()]*)\), ([^;]*)\);', blk)
+    m2 = re.search(r'let (\w+) = core::slice::from_raw_parts\((\w+)\.add\(([^()]*(?:\([^()]*\))?[^()]*)\), ([^;]*)\);', blk)
+    mt = re.search(r'\((\w+), (\w+)\)\s*$', blk.strip())
+    if not (mv and m1 and m2 and mt) or m1.group(2) != mv.group(1) or m2.group(2) != mv.group(1) or mt.group(1) != m1.group(1) or mt.group(2) != m2.group(1):
+        raise ExtractError('rule U2: unsafe block does not have the two-range from_raw_parts shape')
+    new = 'verif_two_ranges(&mut %s, %s, %s, %s, %s)' % (mv.group(2), m1.group(3).strip(), m1.group(4).strip(), m2.group(3).strip(), m2.group(4).strip())
+    return text[:m.start()] + new + text[cb + 1:], 1
+
+
+def rule_D7(text):
+    """for X in E {  (E: &[T] / &Vec<T>)  ->  for X in E.iter() {     (std: IntoIterator for &[T] is iter())"""
+    n = 0
+
+    def rep(mm):
+        nonlocal n
+        n += 1
+        return 'for %s in %s.iter() {' % (mm.group(1), mm.group(2))
+    return re.sub(r'for (\w+) in (\w+) \{', rep, text), n
